@@ -9,6 +9,13 @@ EMPHASIS = {
    * two cooperating code sites that each look fine alone,
    * a rarely used type / property / option combination, or a value class at a boundary (an exponent range, a particular digit pattern, a Unicode class, a list length, an ordering of dictionary keys),
    * a difference that only shows on ONE of several entry points / object forms / spec versions.""",
+ 5: """   * a SILENT change of data rather than a refusal: a value normalised, truncated, rounded, re-ordered, re-cased, de-duplicated, defaulted or dropped on one path only,
+   * the API surface beyond the obvious calls: methods on objects (obj.new_version, obj.revoke, obj.serialize with keyword options, obj.add_markings / is_marked ...), the Environment
+     and ObjectFactory wrappers, the workbench-style helpers, the small helpers in stix2.utils / stix2.versioning / stix2.markings.utils that several features share,
+   * a flag or option (allow_custom, interoperability, version, spec_version, inherited, descendants, pretty ...) that is dropped, inverted or defaulted differently at ONE nesting level or in ONE wrapper,
+   * classes created through the decorators (CustomObject, CustomObservable, CustomExtension, CustomMarking) and how they interact with the property,
+   * two objects / two calls that should be treated alike but differ in something incidental (key order, list order, object vs dict, id shape, presence of an unrelated optional property),
+   * off-by-one and comparison-operator slips (< vs <=, first vs last, any vs all, min vs max) in code that picks one of several candidates.""",
  4: """   * code that STIX 2.0 and 2.1 share (a table, a regular expression, a helper, a default): one version silently gets the other's rule, or a 2.1-only feature leaks into 2.0,
    * sizes and shapes: long strings, many list elements, deep nesting, large or tiny numbers, empty-but-present containers, duplicate elements, ties when something is sorted,
    * an exception handler made slightly narrower or wider, an error turned into a default value (or the reverse), a check moved before/after a conversion,
